@@ -351,6 +351,7 @@ func c05(r *core.Run) {
 
 	r.Rule("M1", "field table: every field of the decoded payload struct is copied exactly once into one request field, each such field is returned by exactly one exported accessor, the map is injective; resource name/params/group/handler/listeners come from the routed Match and the subject; payload JSON keys agree with the client package's Request", 15)
 	r.Rule("M2", "payload decoding: the payload struct is filled by encoding/json.Unmarshal - which validates the whole input, unlike a streaming Decoder that stops after the first value - applied to the message's Data bytes, and its error edge replies with an error before dispatch ('payload not JSON' -> system.internalError)", 2)
+	r.Rule("M6", "a request is never parked on a dead work item (shared with C01.H1): the group registry is re-created for every run before the workers start and the service is declared stopped only after they exited; a registry that survives Shutdown keeps the entry of work that never started, and after the restart every request for that resource is appended to it - no handler is invoked and nothing is answered", 2)
 	r.Rule("M5", "only the service's own names are routed (shared with C06.R7): the remainder of a name after the mux path is taken only where the byte following the path was compared with the token separator; with a bare prefix test a request for 'testmodel' or 'testing.info' invokes the handlers of 'test.model' / 'test.$kind.info' - with a path parameter that is not a token of the requested name - instead of being answered system.notFound", 1)
 	r.Rule("M4", "the handler of the selected pattern (shared with C06.R1): the trie matcher tries literal, placeholder, wildcard in that order and a failed recursive match falls through to the next candidate - its result is branched on, never returned unconditionally; otherwise a name that follows a more specific branch and dead-ends there gets system.notFound although a registered pattern matches it, and no handler is invoked", 4)
 	r.Rule("M3", "path parameters as sent (shared with C06.R4): the match record's node, mount index and params are written together at each accept site and rebased with that same mount index, and the Match handed to request processing takes its params from that record; a mount index that survives backtracking shifts every path parameter", 6)
@@ -363,6 +364,9 @@ func c05(r *core.Run) {
 	r.Rule("E2", "static outcomes: no-resource and get-without-handler reply with the notFound literal, unknown call/auth method with the methodNotFound literal, a handler that returned without replying reaches the fallback that replies with an internalError literal; literals carry the matching Code* constant", 6)
 
 	root := p.FuncsOfPkg("")
+	if sa := resolveSvc(r, "M6"); sa.ok {
+		c01Restart(r, "M6", sa, root)
+	}
 	if ro := resolveMuxRolesFor(r, "M3"); ro != nil {
 		c06Specificity(r, "M4", ro)
 		c06PrefixBoundary(r, "M5")
@@ -1131,6 +1135,7 @@ func toErrorRule(r *core.Run, rule string) {
 // c05Verbatim is rule E3.
 func c05Verbatim(r *core.Run, root []*ssa.Function) {
 	p := r.P
+	c05ErrorMethodVerbatim(r, "E3")
 	mayPub := mayExec(root, func(in ssa.Instruction) bool {
 		c, ok := in.(ssa.CallInstruction)
 		return ok && c.Common().IsInvoke() && c.Common().Method.Name() == "Publish"
@@ -1361,4 +1366,97 @@ func c05Verbatim(r *core.Run, root []*ssa.Function) {
 			}
 		}
 	}
+}
+
+// c05ErrorMethodVerbatim (C18.V8, also run under C05.E3): the exported
+// Error(err error) method of a request type answers with ToError(err) through the
+// error funnel on every path - no other reply is chosen by a test on the error
+// value (by its code, by errors.Is ...). A handler's *Error then reaches the
+// client with its own message and data.
+func c05ErrorMethodVerbatim(r *core.Run, rule string) {
+	p := r.P
+	mp := mayPublish(p)
+	n := 0
+	for _, tn := range []string{"Request", "queryRequest"} {
+		fn := methodNamed(p, "", tn, "Error")
+		if fn == nil || len(fn.Params) != 2 || types.TypeString(fn.Params[1].Type(), nil) != "error" {
+			continue
+		}
+		eprm := fn.Params[1]
+		n++
+		bad := ""
+		replies := 0
+		for _, c := range core.Calls(fn) {
+			cal := c.Common().StaticCallee()
+			if cal == nil || !mp[cal] || core.IsGo(c) {
+				continue
+			}
+			replies++
+			ok := false
+			for _, a := range c.Common().Args {
+				if tc, isCall := core.Strip(a).(*ssa.Call); isCall {
+					if cc := tc.Common().StaticCallee(); cc != nil && cc.Name() == "ToError" && len(tc.Common().Args) == 1 && tc.Common().Args[0] == ssa.Value(eprm) {
+						ok = true
+					}
+				}
+			}
+			if !ok {
+				bad = "the reply at " + p.InstrPos(c) + " (" + core.CalleeName(c) + ") is not the error funnel called with ToError of the error handed in"
+			}
+			// and it is not guarded by a test that looks at the error
+			for _, ed := range dominatingEdges(c) {
+				if dependsOn(ed.If.Cond, eprm, 0) {
+					bad = "the reply at " + p.InstrPos(c) + " is chosen by a test on the error value (" + describeCond(ed) + ")"
+				}
+			}
+		}
+		if replies == 0 {
+			bad = "no reply is sent"
+		}
+		r.Check(bad == "", rule, core.FuncName(fn), "error-reply=ToError(err)-on-every-path", p.Pos(fn.Pos()), "the one reply of the method is the error funnel with ToError(err), unconditionally", "the Error method does not always answer with the error it was handed: "+bad+" - an *Error with a predefined code but its own message or data reaches the client as the static predefined error")
+	}
+	if n == 0 {
+		r.Bad(rule, "Request", "Error-method-found", "-", "no request type has an Error(err error) method (rule went vacuous)")
+	}
+}
+
+// dependsOn: v is computed from root (through calls, comparisons, type
+// assertions, extracts and phis).
+func dependsOn(v, root ssa.Value, depth int) bool {
+	if v == root {
+		return true
+	}
+	if depth > 6 || v == nil {
+		return false
+	}
+	switch x := v.(type) {
+	case *ssa.BinOp:
+		return dependsOn(x.X, root, depth+1) || dependsOn(x.Y, root, depth+1)
+	case *ssa.UnOp:
+		return dependsOn(x.X, root, depth+1)
+	case *ssa.Extract:
+		return dependsOn(x.Tuple, root, depth+1)
+	case *ssa.TypeAssert:
+		return dependsOn(x.X, root, depth+1)
+	case *ssa.ChangeInterface:
+		return dependsOn(x.X, root, depth+1)
+	case *ssa.MakeInterface:
+		return dependsOn(x.X, root, depth+1)
+	case *ssa.Phi:
+		for _, e := range x.Edges {
+			if e != v && dependsOn(e, root, depth+1) {
+				return true
+			}
+		}
+	case *ssa.Call:
+		for _, a := range x.Common().Args {
+			if dependsOn(a, root, depth+1) {
+				return true
+			}
+		}
+		if x.Common().IsInvoke() {
+			return dependsOn(x.Common().Value, root, depth+1)
+		}
+	}
+	return false
 }
